@@ -558,6 +558,33 @@ def centred_symmetric(P):
     return bool(P[tuple(sh // 2 for sh in P.shape)] == P.max())
 
 
+def gauss_profile(p, tmax):
+    """the scalar leaf of the Gauss PSFs: g(t) = exp(-t/(2 p^2)), t = 0..tmax (floats, sent exactly)"""
+    with np.errstate(all="ignore"):
+        return [float(np.exp(-0.5 * (t / (p ** 2)))) for t in range(tmax + 1)]
+
+
+def psf_same(model_txt, Pimpl, tol=1e-11):
+    """named PSF of the model (exact rationals) against the array the implementation built: relative to the largest entry"""
+    Pi = np.asarray(Pimpl, dtype=float)
+    if model_txt in ("_", "_0x0"):
+        return Pi.size == 0
+    Pm = parse_L(model_txt)
+    if Pi.ndim == 1:
+        Pm = Pm.reshape(-1)
+    if Pm.shape != Pi.shape or np.isnan(Pi).any():
+        return False
+    if Pm.size == 0:
+        return True
+    return bool(np.all(np.abs(Pm - Pi) <= tol * max(np.abs(Pm).max(), np.abs(Pi).max())))
+
+
+def psf_hist(ctx, name, s, outcome):
+    h = ctx.extra_cov.setdefault("named_psf", {})
+    k = f"{name}:{'odd' if s % 2 else 'even'}:{outcome}"
+    h[k] = h.get(k, 0) + 1
+
+
 class _Collector:
     def __init__(self):
         self.failures = []
@@ -1081,6 +1108,120 @@ def _run(ctx):
         history_fn(gI(2, 3, "C"), g1("Continuous1D", 4), gI(2, 3, "F"), cached)
         history_fn(g1("Continuous1D", 4), g1("Continuous1D", 3), gI(2, 2, "F"), cached)
 
+    # ---- random op HISTORIES of ONE object against the object model (`hist`, Model/C07_obj.lean): `get_matrix()` stores its result
+    # in `self._matrix`, geometries are re-assigned before / after that, `T` is taken at the end (copies `self._matrix.T`).
+    def hist_pool(n):
+        pool = [g1("Continuous1D", n), g1("Discrete", n), gS(n, n)]
+        for r_ in range(2, n):
+            if n % r_ == 0:
+                pool += [gI(r_, n // r_, "C"), gI(r_, n // r_, "F"), gC2(r_, n // r_)]
+        return pool
+
+    def hist_case(nD, nR, ops, wrong_adjoint=False, gd0=None, gr0=None):
+        """ops: list of 'gm' | ('sd', GSpec) | ('sr', GSpec)"""
+        poolD, poolR = hist_pool(nD), hist_pool(nR)
+        gd0 = gd0 or rng.choice(poolD); gr0 = gr0 or rng.choice(poolR)
+        A0 = nrs.randint(-3, 4, size=(nR, nD)).astype(float)
+        B0 = A0.T.copy()
+        if wrong_adjoint:
+            B0 = nrs.randint(-3, 4, size=(nD, nR)).astype(float)
+            if np.array_equal(B0, A0.T):
+                B0[0, 0] += 1
+        optoks = [o if o == "gm" else f"{o[0]}={o[1].token}" for o in ops]
+        oplabels = [o if o == "gm" else f"{o[0]}={o[1].label}" for o in ops]
+        gdF, grF = gd0, gr0
+        cached_at = None; stale = False
+        for i_, o in enumerate(ops):
+            if o == "gm":
+                cached_at = i_ if cached_at is None else cached_at
+            else:
+                if cached_at is not None:
+                    stale = True
+                if o[0] == "sd":
+                    gdF = o[1]
+                else:
+                    grF = o[1]
+        desc = {"history": oplabels, "A": A0.tolist(), "B": B0.tolist() if wrong_adjoint else "A^T", "dom0": gd0.label, "rng0": gr0.label, "dom0_token": gd0.token, "rng0_token": gr0.token,
+                "ops": optoks}
+        fam = "expansion" if "expansion" in (gdF.family, grF.family) else "plain"
+        tag = "@history:geometry-reassigned-after-get_matrix" if stale else "@history:ops"
+        keyf = lambda aspect: f"LinearModel:{aspect}:fn:{fam}:{gdF.label}>{grF.label}{tag}"
+        tiekey = "tie:LinearModel:fn:object-history"
+        hh = ctx.extra_cov.setdefault("object_histories", {})
+        kk = f"len={len(ops)}:{'stale' if stale else ('cached' if cached_at is not None else 'uncached')}:{'wrong-adjoint' if wrong_adjoint else 'adjoint-pair'}"
+        hh[kk] = hh.get(kk, 0) + 1
+
+        def h(out):
+            ctx.case("lin-object-history", desc)
+            obs = {}
+            with quiet():
+                M = LinearModel(lambda x: (A0 @ np.asarray(x).ravel()).reshape(M.range_geometry.fun_shape),
+                                lambda y: (B0 @ np.asarray(y).ravel()).reshape(M.domain_geometry.fun_shape), gr0.make(), gd0.make())
+                for o in ops:
+                    try:
+                        if o == "gm":
+                            M.get_matrix()
+                        elif o[0] == "sd":
+                            M.domain_geometry = o[1].make()
+                        else:
+                            M.range_geometry = o[1].make()
+                    except Exception:
+                        pass
+                n_, m_ = int(M.domain_dim), int(M.range_dim)
+                for nm_, fn_ in (("fwd", lambda: cols(M.forward, n_)), ("adj", lambda: cols(M.adjoint, m_)),
+                                 ("tfwd", lambda: cols(M.T.forward, m_)), ("tadj", lambda: cols(M.T.adjoint, n_)),
+                                 ("tgm", lambda: dense(M.T.get_matrix())), ("gm", lambda: dense(M.get_matrix()))):
+                    try:
+                        obs[nm_] = np.array(fl(fn_()), copy=True)
+                    except Exception as e:
+                        obs[nm_] = None; obs[nm_ + "_err"] = repr(e)[:100]
+            exact = gdF.exact and grF.exact and gd0.exact and gr0.exact and all(o == "gm" or o[1].exact for o in ops)
+            if out == "err":
+                if obs["fwd"] is not None and obs["adj"] is not None:
+                    ctx.disagree(tiekey, desc, "err", "evaluates", "model predicts a shape error")
+                return
+            f = fields(out)
+            broken = []
+            for nm_ in ("fwd", "adj", "gm", "tfwd", "tadj", "tgm"):
+                mv = None if f[nm_] == "err" else parse_L(f[nm_])
+                iv = obs[nm_]
+                if (mv is None) != (iv is None) or (mv is not None and not same(mv, iv, exact)):
+                    broken.append(nm_)
+            # the property on the object in its final state
+            F_, Ad_, G_, TG_ = obs["fwd"], obs["adj"], obs["gm"], obs["tgm"]
+            fails = []
+            if F_ is not None and fam == "plain":
+                if G_ is None or differ(G_, F_, exact):
+                    fails.append((keyf("get_matrix"), "get_matrix()[:, j] = forward(e_j) after the history", None if G_ is None else G_.tolist(),
+                                  "matrix representation does not reproduce the forward map column by column"))
+                if not wrong_adjoint and (TG_ is None or differ(TG_, F_.T, exact)):
+                    fails.append((keyf("get_matrix") if stale else keyf("T"), "T.get_matrix() = forward^T after the history", None if TG_ is None else TG_.tolist(),
+                                  "the transposed model's matrix is not the transpose of the forward map"))
+                if not wrong_adjoint and (Ad_ is None or differ(Ad_, F_.T, exact)):
+                    fails.append((keyf("adjoint"), "matrix of adjoint = transpose of matrix of forward", None if Ad_ is None else Ad_.tolist(), "<A x, y> != <x, A* y>"))
+            if broken:
+                ctx.disagree(tiekey, {**desc, "differs": broken}, out[:400], {k_: (None if obs[k_] is None else obs[k_].tolist()) for k_ in broken},
+                             "object after the history differs from the object model (get_matrix cache / current geometries / T's copied matrix)")
+                for (_k, dem, got, what) in fails:
+                    ctx.fail(tiekey, desc, dem, got, what)
+            for (k_, dem, got, what) in fails:
+                ctx.fail(k_, desc, dem, got, what)
+        jobs.append((f"hist fn {qm(A0)} {qm(B0)} {gd0.token} {gr0.token} {'|'.join(optoks) if optoks else '_'}", h))
+
+    for _ in range(36 if not thorough else 300):
+        nD_, nR_ = rng.choice([4, 6]), rng.choice([3, 4, 6])
+        L_ = rng.randrange(0, 6)
+        ops_ = []
+        for _j in range(L_):
+            u_ = rng.random()
+            ops_.append("gm" if u_ < 0.4 else (("sd", rng.choice(hist_pool(nD_))) if u_ < 0.75 else ("sr", rng.choice(hist_pool(nR_)))))
+        hist_case(nD_, nR_, ops_, wrong_adjoint=(rng.random() < 0.2))
+    # fixed histories: the witnesses of cache_stale_counterexample / tGetMatrix_history_dependent_counterexample, re-assignment before caching
+    hist_case(4, 4, ["gm", ("sd", gI(2, 2, "F"))], gd0=g1("Continuous1D", 4), gr0=g1("Continuous1D", 4))
+    hist_case(4, 4, [("sd", gI(2, 2, "F")), "gm"], gd0=g1("Continuous1D", 4), gr0=g1("Continuous1D", 4))
+    hist_case(4, 3, ["gm"], wrong_adjoint=True); hist_case(4, 3, [], wrong_adjoint=True)
+    hist_case(6, 4, ["gm", ("sr", gI(2, 2, "F")), "gm", ("sd", gI(3, 2, "F"))]); hist_case(6, 6, [("sd", gI(2, 3, "F")), ("sr", gC2(3, 2)), "gm", "gm"])
+
     # the class of inputs where geometry equality is asymmetric: `_DefaultGeometry1D.__eq__` accepts every Continuous1D
     # subclass with the same grid, so a default domain "equals" a StepExpansion range on the grid 0..n-1 and the
     # CUQIarray output is never projected: known finding `LinearModel:repr:geometry-eq-asymmetric:*`
@@ -1184,7 +1325,28 @@ def _run(ctx):
             C = cols(lambda x: convolve1d(x, Pl, mode=mode), n)
             st = ctx.extra_cov.setdefault("deconv1d_vs_convolve1d", {"equal": 0, "transposed_only": 0, "other": 0})
             st["equal" if not differ(A, C) else "transposed_only" if not differ(A, C.T) else "other"] += 1
-        jobs.append((f"deconv1 {BC} {n} {qv(Pl)}", h))
+        if P is not None:
+            jobs.append((f"deconv1 {BC} {n} {qv(Pl)}", h))
+            return
+        # named PSF: the MODEL builds the PSF (grid, profile, normalisation, defaults) and the matrix from the option values
+        s_req = n if size is None else size
+        gtok = "-"
+        if named.lower() == "gauss" and param != 0:
+            gtok = qv(gauss_profile(10.0 if param is None else float(param), (s_req // 2) ** 2))
+        def hn(out):
+            psf_hist(ctx, "1D:" + named.lower(), s_req, out if out in ("err", "nan") else "ok")
+            if out == "err":
+                return h("err")
+            if out == "nan":
+                ctx.case("deconv1d-named", desc)
+                if not (impl_ok and np.isnan(Pl).all()):
+                    ctx.disagree(f"tie:Deconvolution1D:{cls}:psf", desc, "NaN PSF", Pl.tolist() if impl_ok else err, "model predicts a NaN PSF")
+                return
+            f = fields(out)
+            if impl_ok and not psf_same(f["psf"], Pl):
+                ctx.disagree(f"tie:Deconvolution1D:{cls}:psf", desc, f["psf"][:300], Pl.tolist(), "the named PSF the code built differs from the model's PSF (grid / profile / normalisation / defaults)")
+            return h(f["mat"])
+        jobs.append((f"deconv1n {BC} {n} {named} {'none' if size is None else size} {'none' if param is None else q(param)} {gtok}", hn))
 
     def Deconvolution1D_model(TP):
         # a fresh LinearModel with the problem's matrix and geometries (get_matrix caching / T copy `_matrix`)
@@ -1252,7 +1414,9 @@ def _run(ctx):
         if P is not None:
             kw["PSF"] = P
         else:
-            kw.update(PSF=named, PSF_param=param)
+            kw.update(PSF=named)
+            if param != "dflt":
+                kw["PSF_param"] = param        # "dflt": omitted, the documented default (2.56) is used
             if size is not None:
                 kw["PSF_size"] = size          # None: the documented default (21) is used
         desc = {"problem": "Deconvolution2D", "dim": n, "BC": BC, "PSF": P.tolist() if P is not None else named, "PSF_size": size, "PSF_param": param}
@@ -1302,7 +1466,28 @@ def _run(ctx):
             hist = ctx.extra_cov.setdefault("deconv2d_adjoint_verdicts", {})
             kk = f"{cls}:{'fail' if 'adjoint' in bad else 'hold'}"
             hist[kk] = hist.get(kk, 0) + 1
-        jobs.append((f"deconv2 {BC} {n} {qm(Pl)}", h))
+        if P is not None:
+            jobs.append((f"deconv2 {BC} {n} {qm(Pl)}", h))
+            return
+        gtok = "-"
+        p_eff = 2.56 if param == "dflt" else param
+        if named.lower() == "gauss" and p_eff not in (None, 0):
+            gtok = qv(gauss_profile(float(p_eff), 2 * (req // 2) ** 2))
+        def hn(out):
+            psf_hist(ctx, "2D:" + named.lower(), req, out if out in ("err", "nan") else "ok")
+            if out == "err":
+                return h("err")
+            if out == "nan":
+                ctx.case("deconv2d-named", desc)
+                if not (impl_ok and np.isnan(Pl).all()):
+                    ctx.disagree(f"tie:Deconvolution2D:{cls}:psf", desc, "NaN PSF", Pl.tolist() if impl_ok else err, "model predicts a NaN PSF")
+                return
+            psf_txt, _, rest = out.partition(" ")
+            if impl_ok and not psf_same(psf_txt[4:], Pl):
+                ctx.disagree(f"tie:Deconvolution2D:{cls}:psf", desc, psf_txt[:300], Pl.tolist(), "the named PSF the code built differs from the model's PSF (grid / meshgrid / profile / normalisation / defaults)")
+            return h(rest)
+        ptok = "dflt" if param == "dflt" else ("none" if param is None else q(param))
+        jobs.append((f"deconv2n {BC} {n} {named} {'dflt' if size is None else size} {ptok} {gtok}", hn))
 
     bcs2 = ["zero", "periodic", "neumann", "mirror", "nearest"]
     sizes2 = range(1, 6) if not thorough else range(1, 8)
@@ -1357,6 +1542,65 @@ def _run(ctx):
         except Exception as e:
             ctx.fail(f"Deconvolution{dimlab}:constructor:PSF=defocus:PSF_param=0", desc0, "a linear model with the delta PSF", repr(e)[:120],
                      "the documented delta-PSF option (PSF_param = 0) cannot be constructed")
+
+    # ================================================================ named PSF builders against the model (`psf1` / `psf2`)
+    from cuqi.testproblem import _testproblem as tpm
+    B1 = {"gauss": tpm._GaussPSF_1D, "moffat": tpm._MoffatPSF_1D, "defocus": tpm._DefocusPSF_1D}
+    B2 = {"gauss": lambda s_, p_: tpm._GaussPSF(np.array([s_, s_]), p_), "moffat": lambda s_, p_: tpm._MoffatPSF(np.array([s_, s_]), p_, 1),
+          "defocus": lambda s_, p_: tpm._DefocusPSF(np.array([s_, s_]), p_)}
+
+    def psf_case(dimlab, name, s_, prm):
+        desc = {"builder": {"1D": "_%sPSF_1D", "2D": "_%sPSF"}[dimlab] % name.capitalize(), "PSF_size": s_, "PSF_param": prm}
+        try:
+            with quiet(), np.errstate(all="ignore"):
+                Pi = np.asarray((B1 if dimlab == "1D" else B2)[name](s_, prm)[0], dtype=float)
+            impl = "nan" if (Pi.size and np.isnan(Pi).all()) else "ok"
+        except Exception as e:
+            impl, Pi = "err", repr(e)[:100]
+        gtok = "-"
+        p_eff = (10.0 if dimlab == "1D" else None) if prm is None else prm
+        if name == "gauss" and p_eff not in (None, 0):
+            gtok = qv(gauss_profile(float(p_eff), (1 if dimlab == "1D" else 2) * (s_ // 2) ** 2))
+        def h_psf(out):
+            ctx.case("psf-" + dimlab, desc)
+            mo = out if out in ("err", "nan") else "ok"
+            psf_hist(ctx, f"builder{dimlab}:{name}", s_, mo)
+            key = f"tie:PSF{dimlab}:{name}:{'odd' if s_ % 2 else 'even'}"
+            if mo != impl or (mo == "ok" and not psf_same(out, Pi)):
+                ctx.disagree(key, desc, out[:300], Pi.tolist() if impl != "err" else Pi, "named PSF differs from the model (grid offsets / meshgrid / profile / normalisation / refusal)")
+                # the property near this input: the shipped Gauss / Moffat PSF of odd size under Neumann and periodic boundaries (theorem deconv2d_named_adjoint)
+                if name in ("gauss", "moffat") and s_ % 2 == 1 and impl == "ok" and prm is not None:
+                    for BC_ in ("neumann", "periodic"):
+                        try:
+                            with quiet():
+                                TPx = Deconvolution2D(dim=4, PSF=name, PSF_size=s_, PSF_param=prm, BC=BC_, phantom=np.ones((4, 4))) if dimlab == "2D" else \
+                                    Deconvolution1D(dim=5, PSF=name, PSF_size=s_, PSF_param=prm, BC="periodic")
+                                nn = int(TPx.model.domain_dim)
+                                Fx, Ax = cols(TPx.model.forward, nn), cols(TPx.model.adjoint, nn)
+                            if differ(Fx.T, Ax):
+                                ctx.fail(key, {**desc, "BC": BC_}, "matrix of adjoint = transpose of matrix of forward", "differs", "<A x, y> != <x, A* y> with the PSF the code built")
+                        except Exception:
+                            pass
+        jobs.append((f"psf{dimlab[0]} {name} {s_} {'none' if prm is None else q(prm)} {gtok}", h_psf))
+
+    PRM = [0.3, 1.0, 1.5, 2.0, 2.56, 3.0, 10.0, -1.5, 1e-3, 1e3]
+    for dimlab in ("1D", "2D"):
+        for name in ("gauss", "moffat", "defocus"):
+            for s_ in (range(1, 9) if not thorough else range(1, 16)):
+                for prm in rng.sample(PRM, 2 if not thorough else 5):
+                    psf_case(dimlab, name, s_, prm)
+            psf_case(dimlab, name, rng.choice([3, 4, 5]), None)      # 1-D: default 10; 2-D: None**2 raises
+            psf_case(dimlab, name, rng.choice([3, 4, 5]), 0)         # refusals (all-NaN -> IndexError; float index)
+            psf_case(dimlab, name, 0, 1.0)                           # empty grid
+        psf_case(dimlab, "defocus", 1, 0.5); psf_case(dimlab, "defocus", 3, 1.0); psf_case(dimlab, "defocus", 5, 2.0)   # NaN PSF; boundary (k-c)^2 == p^2
+
+    # option glue of the constructors: unknown names, defaults by omission / explicit None, negative parameter, size 0
+    deconv1_case(5, "periodic", named="foo", size=3, param=1.0); deconv2_case(4, "periodic", named="foo", size=3, param=1.0)
+    deconv1_case(6, "zero", named="GAUSS", size=None, param=None); deconv1_case(5, "reflect", named="Moffat", size=5, param=-1.5)
+    deconv1_case(5, "periodic", named="defocus", size=0, param=1.0); deconv1_case(5, "periodic", named="gauss", size=0, param=1.0)
+    deconv2_case(4, "periodic", named="MOFFAT", size=3, param="dflt"); deconv2_case(4, "zero", named="defocus", size=5, param="dflt")
+    deconv2_case(3, "Neumann", named="Gauss", size=3, param=None); deconv2_case(4, "neumann", named="moffat", size=5, param=-1.5)
+    deconv2_case(4, "periodic", named="gauss", size=0, param=1.0); deconv2_case(4, "periodic", named="defocus", size=0, param=1.0)
 
     # ================================================================ Abel1D
     def abel_case(n, endpoint, field, params):
